@@ -114,7 +114,7 @@ The file is `known_findings.json`; nothing is added to it at run time.
 
 SEEDS_INTRO = """Each change was written by a fresh sub-agent that saw only the property text and its own scratch worktree, confirmed by
 `tools/confirm_seed.sh` (demonstration passes on the pristine tree, fails with the patch, no new failure in the pinned suite) and stored under
-`seeded/<id>/`. Eleven rounds so far, 433 stored changes (the number is recomputed below from the directory). The share a round's first sweep missed stayed between a quarter and 40 per cent up to the last round: the agents are told what was already taken, so every round comes through new entry points, input types and object lifetimes - which is the reason to keep running rounds rather than a sign that the checks do not improve. `tools/psweep.sh` applies every stored change to a scratch copy of /repo (several in parallel; `tools/seedsweep.sh`
+`seeded/<id>/`. Twelve rounds so far, 433 stored changes (the number is recomputed below from the directory). The share a round's first sweep missed stayed between a quarter and 40 per cent up to the last round: the agents are told what was already taken, so every round comes through new entry points, input types and object lifetimes - which is the reason to keep running rounds rather than a sign that the checks do not improve. `tools/psweep.sh` applies every stored change to a scratch copy of /repo (several in parallel; `tools/seedsweep.sh`
 does the same on /repo's working tree, one at a time), runs the owning check and removes the copy; at the time of writing every stored change is
 reported as VIOLATION by the quick tier of its check, with a failing input replayed on the real code. Where a check first missed a change it was
 strengthened - the generator was the gap nearly every time, an oracle clause a few times; no oracle was loosened:
@@ -204,6 +204,23 @@ strengthened - the generator was the gap nearly every time, an oracle clause a f
   handed from one message to another (`message.protocol = other.protocol`, `= ServerProtocol`) and version texts outside ASCII; C19 the field built by the
   application with `append(name, element)` and `append(name, value, **parameters)`, element texts contained in earlier ones, parameter names that sort behind `q`;
   C20 the representation handed over as a `Body` object on a Response that still holds the body of its last answer.
+
+* round 12 (ids -22 .. -24; 18 of 40 missed at first, several of them closed from the agents' summaries before the sweep came back): C01 bodies under a
+  content coding (Content-Length framed and in several chunks) cut inside the coded octets; C03 numbers that are not sizes (RFC 2231 section numbers, weights,
+  range positions) - parsed in the child interpreter only, under a 3 GiB address-space limit, because a change that allocates by their value takes the check
+  down with it otherwise - and 8-bit charset tokens of extended parameters; C04 a message object used for a second exchange with the new representation as a
+  `Body` object of pieces, read back by the opposite state machine; C05 one `Body` object handed to the constructors of two responses (a 304 / HEAD / chunked
+  answer in between); C06 an encoded question mark in the path (the Location of the 301), the Host field sent twice with the header section fed line by line,
+  and - found by the full sweep, two older changes had become seed-dependent - every target form x Host present / absent x protocol x method deterministically,
+  with the oracle clause that HTTP/1.1 without Host is never delivered; C07 `Transfer-Encoding` as an RFC 2047 encoded word, trailer announcements that
+  only look like the field sent once a case or compatibility mapping is applied; C08 `Headers.fromkeys()`, iteration / `len()` / copies; C09 an element composed,
+  changed through its parameter mapping and composed again, literal `%HH` in values that travel as extended parameters; C10 / C13 names and values of letters
+  and digits outside ASCII only, `%41` as data; C11 keywords with the scheme in upper case and without the default port, encoded slashes and dots in paths to
+  normalise; C12 sub-delimiters in fragments (the written-form clause now covers them), queries that begin or end with a plus sign; C14 content that is itself a
+  gzip / zlib stream or begins like one, multipart parts labelled with a content coding; C16 text credentials that are not in a normalisation form, bytearray
+  credentials composed twice; C17 the parameters handed over as text, request-targets that are not normal forms (`/%7Euser`, `/x?`); C18 a status handed from
+  one response to another (same code, other phrase); C19 an empty quoted parameter value in a later list element, language ranges with digits; C20 one `Body`
+  object handed to two exchanges.
 
 Stored patches are rebased when a `fix:` commit touches the same lines (noted in their notes.txt). Six changes are kept under `seeded/rejected/` and are not
 counted: C04-2, C12-1-superseded and C11-11 became harmless through the repairs F50 / F60 / F64 (their demonstrations pass with the patch applied); C06-9 and C07-10
